@@ -97,22 +97,23 @@ class NetworkService(ModelElement):
             self.topo.graph_model.add_network_service_sliver(parent_node_id=parent_node_id, network_service=sliver)
             self._interfaces = list()
 
-            if interfaces is not None and len(interfaces) > 0:
+            if interfaces is not None:
                 connected_interfaces = list()
-                for i in interfaces:
-                    # run through guardrails, then connect
-                    try:
+                # walking the caller's argument is part of what can fail (not a list, an iterator that raises)
+                try:
+                    for i in interfaces:
+                        # run through guardrails, then connect
                         self.__service_guardrails(sliver, i)
                         self.connect_interface(interface=i)
                         connected_interfaces.append(i)
-                    except Exception as e:
-                        # disconnect previously connected interfaces
-                        for ii in connected_interfaces:
-                            self.disconnect_interface(ii)
-                        # remove sliver from the graph
-                        self.topo.graph_model.remove_ns_with_cps_and_links(node_id=self.node_id)
-                        # re-throw the exception
-                        raise TopologyException(str(e))
+                except Exception as e:
+                    # disconnect previously connected interfaces
+                    for ii in connected_interfaces:
+                        self.disconnect_interface(ii)
+                    # remove sliver from the graph
+                    self.topo.graph_model.remove_ns_with_cps_and_links(node_id=self.node_id)
+                    # re-throw the exception
+                    raise TopologyException(str(e))
         else:
             assert node_id is not None
             super().__init__(name=name, node_id=node_id, topo=topo)
